@@ -31,7 +31,14 @@ out = ['Sub-agents that saw only the property text and a scratch worktree produc
        'fourth round: Cxx-5, Cxx-6 (the sub-agents were told which changes existed already, to get different mechanisms).  Checks that missed a change at first were '
        'strengthened (generator families or deterministic probes) until they caught it with a concrete input: C02-1/2 (oracle rebuilt '
        'from touching segments), C03, C05, C06 (new families), C12-2, C15-4 (three media), C18-1 (fuzzy-joined ends), C18-4 (nearly '
-       'grounded ends), C19-3 (distributed loads in reports), C20-1 / C20-4 (row correspondence, option grid).', '',
+       'grounded ends), C19-3 (distributed loads in reports), C20-1 / C20-4 (row correspondence, option grid).  Fifth round: Cxx-7, Cxx-8 for all twenty; '
+       'sixth round: Cxx-9, Cxx-10 for C02, C04, C09, C10, C11, C13, C15, C18, C19, C20.  Of the twenty changes of the sixth round eleven were caught as the checks '
+       'stood; the other nine needed: C04-9 a near field after a frequency step, C11-10 ground constants changed in place on a solved object, C18-10 a load '
+       'attached twice to one pulse, C09-9 / C09-10 junctions a few millimetres above a ground plane with the grounded ends decided by the oracle from the '
+       'segment ends, C10-10 azimuth sweeps containing phi and -phi, C13-9 arcs whose count makes a floating-point `arange` overshoot, C19-9 the media block of '
+       'the report with three media, C19-10 the connection columns of grounded pulses under tags that are not positions, C20-9 downward sweeps that reach 0 MHz, '
+       'C20-10 an output path that is a directory (and the OSError subclasses in the translator of `main`, so that a narrowed handler is an unsafe site with a '
+       'named line rather than a translator failure).  After that every seed but the obsolete C20-2 is reported with a concrete failing input.', '',
        '| seed | change (summary of the sub-agent) | result of the quick check |', '|------|------|------|'] + rows
 txt = '\n'.join(out)
 p = os.path.join(ROOT, 'DESIGN.md')
